@@ -251,7 +251,7 @@ pub fn test_tool(case: &DictCase) -> TestResult {
 }
 
 pub fn run(rep: &mut Report) {
-    let n = rep.n(30000, 300000);
+    let n = rep.n(30000, 1500000);
     rep.run_prop(
         "library",
         "generated models x replacement dictionaries x texts: Model::dictionary() returns the \
@@ -263,7 +263,7 @@ Non-trivial = the replacement changes at least one score.",
         || case_strategy(ModelCfg { allow_255: false, ..ModelCfg::BOUNDARY }),
         test_library,
     );
-    let n = rep.n(600, 6000);
+    let n = rep.n(2000, 60000);
     rep.run_prop(
         "tool",
         "the real manipulate_model binary (rebuilt from /repo): model with a CSV-hostile \
